@@ -118,6 +118,8 @@ def onSingle := "on_single_dispatch"
 
 def Universe.mapOf (U : Universe) (o : Obj) : Option Mapping := (U.objTy o).bind U.mapping
 
+def tyOf (U : Universe) (o : Obj) : Ty := (U.objTy o).getD 0
+
 def row (s : St) (e : Ent) : Dict Ty Obj := (Dict.get? s.ents e).getD []
 def idx (s : St) (t : Ty) : List Ent := (Dict.get? s.comps t).getD []
 
@@ -153,6 +155,14 @@ def dispatchPlain (U : Universe) (s : St) (ev args : String) : St × Outcome :=
   else if !s.enabled then ({ s with queue := s.queue ++ [.plain ev args] }, .ok)
   else deliverPlain U s ev args
 
+/-- `Controller.on_add` stores the entity (logic/__init__.py:89-95) -/
+def ctrlRecord (U : Universe) (s : St) (event : String) (o : Obj) (ent : Option Ent) : St :=
+  if event = onAdd && (U.cls (tyOf U o)).isCtrl then
+    match ent with
+    | some e => { s with ctrl := Dict.set s.ctrl o e }
+    | none => s
+  else s
+
 /-- lifecycle callback of `o` for `event` with the owner `ent`: direct call when enabled, relay
 through `on_single_dispatch` when disabled (world.py:108-121 and its four replicas) -/
 def lifecycle (U : Universe) (s : St) (event : String) (o : Obj) (m : Mapping) (ent : Option Ent) :
@@ -160,13 +170,7 @@ def lifecycle (U : Universe) (s : St) (event : String) (o : Obj) (m : Mapping) (
   match Dict.get? m event with
   | none => (s, .ok)
   | some meth =>
-    if s.enabled then
-      let s := if event = onAdd && (U.cls ((U.objTy o).getD 0)).isCtrl then
-        match ent with
-        | some e => { s with ctrl := Dict.set s.ctrl o e }
-        | none => s
-        else s
-      callCb U s o meth (.life event o meth ent)
+    if s.enabled then callCb U (ctrlRecord U s event o ent) o meth (.life event o meth ent)
     else if s.known.contains onSingle then
       ({ s with queue := s.queue ++ [.relay event o ent] }, .ok)
     else (s, .ok)
@@ -227,8 +231,6 @@ def attachTables (U : Universe) (s : St) (e : Ent) (c : Obj) : St :=
 def freshFrom (keys : List Ent) : Nat → Nat → Nat
   | 0, n => n
   | fuel + 1, n => if keys.contains n then freshFrom keys fuel (n + 1) else n
-
-def tyOf (U : Universe) (o : Obj) : Ty := (U.objTy o).getD 0
 
 /-- `create_entity` (world.py:62-123) -/
 def createEntity (U : Universe) (s : St) (id? : Option Ent) (cs : List Obj) : St × Outcome × Ent :=
@@ -395,22 +397,19 @@ def clear (U : Universe) (s : St) : St × Outcome :=
     | r => r
   | r => r
 
+/-- `_on_single_dispatch(event, handler, *args)` reached through
+`dispatch('on_single_dispatch', …)` (world.py:171-179) -/
+def deliverRelay (U : Universe) (s : St) (event : String) (h : Obj) (ent : Option Ent) : St × Outcome :=
+  if !(s.known.contains onSingle && s.selfReg) then (s, .ok)
+  else
+    match (U.mapOf h).bind (fun m => Dict.get? m event) with
+    | none => (s, .raised "KeyError")
+    | some meth => callCb U (ctrlRecord U s event h ent) h meth (.life event h meth ent)
+
 /-- delivery of one postponed event -/
 def deliverQ (U : Universe) (s : St) : QEv → St × Outcome
   | .plain ev args => if s.known.contains ev then deliverPlain U s ev args else (s, .ok)
-  | .relay event h ent =>
-    -- dispatch('on_single_dispatch', …) reaches `_on_single_dispatch` of the world (world.py:171-179)
-    if !(s.known.contains onSingle && s.selfReg) then (s, .ok)
-    else
-      match (U.mapOf h).bind (fun m => Dict.get? m event) with
-      | none => (s, .raised "KeyError")
-      | some meth =>
-        let s := if event = onAdd && (U.cls (tyOf U h)).isCtrl then
-          match ent with
-          | some e => { s with ctrl := Dict.set s.ctrl h e }
-          | none => s
-          else s
-        callCb U s h meth (.life event h meth ent)
+  | .relay event h ent => deliverRelay U s event h ent
 
 /-- the `dispatch_enabled = True` loop (events.py:133-139); callbacks are passive, so nothing
 can disable dispatching in between and the loop is a recursion on the queue -/
